@@ -1781,6 +1781,9 @@ def gen_stream_case(rng, kind=None):
         return c
     qd = gen_qdesc(rng)
     frame, d = gen_frame(rng, qd)
+    if d.get("raw") is None and d.get("marker") is not None and not d.get("cut") and rng.chance(1, 4):
+        d["dup"] = True  # two records of one RRset: one_rr_per_rrset shows in the returned message
+        frame = build_dgram(d)
     stream = len(frame).to_bytes(2, "big") + frame
     r = rng.below(8)
     if r == 0:
@@ -1792,7 +1795,7 @@ def gen_stream_case(rng, kind=None):
         stream = stream[: 2 + rng.below(len(frame))]  # declared length exceeds what ever arrives
     elif r == 3:
         stream = (len(frame) + rng.range(1, 300)).to_bytes(2, "big") + frame
-    c["one"] = rng.chance(1, 4)
+    c["one"] = rng.chance(1, 2)
     c["it"] = rng.chance(1, 3)
     c["frames"] = {frame.hex(): d}
     c["revents"] = gen_revents(rng, stream)
